@@ -432,6 +432,14 @@ mod xen_part {
             for with_file in [true, false] {
                 for off in [0u64, 1, 4096] {
                     for size in [4096usize, 5000] {
+                      // mmap flags / protection of the request: default, explicit, and the forbidden MAP_FIXED
+                      for (mflags, mprot) in [
+                          (None, None),
+                          (Some(libc::MAP_SHARED), Some(libc::PROT_READ)),
+                          (Some(libc::MAP_SHARED | libc::MAP_FIXED), None),
+                          (Some(libc::MAP_PRIVATE | libc::MAP_FIXED | libc::MAP_NORESERVE), Some(libc::PROT_READ | libc::PROT_WRITE)),
+                      ] {
+                        let fixed = mflags.map_or(false, |f: i32| f & libc::MAP_FIXED != 0);
                         let valid_bits = w & !(0x1 | 0x2 | 0x8) == 0;
                         let grant = w & 0x2 != 0;
                         let foreign = w & 0x1 != 0;
@@ -440,7 +448,9 @@ mod xen_part {
                         let unix = valid && !grant && !foreign;
                         let fo = if with_file { Some(emu.file_offset(off)) } else { None };
                         // model: what must be refused
-                        let must_refuse: Option<&str> = if !valid {
+                        let must_refuse: Option<&str> = if fixed {
+                            Some("MapFixed")
+                        } else if !valid {
                             Some("MmapFlags")
                         } else if !unix && !with_file {
                             Some("InvalidFileOffset")
@@ -449,7 +459,15 @@ mod xen_part {
                         } else {
                             None
                         };
-                        let range = MmapRange::new(size, fo, GuestAddress(0x10000), w, 7);
+                        let mut range = MmapRange::new(size, fo, GuestAddress(0x10000), w, 7);
+                        if let Some(f) = mflags {
+                            range.set_flags(f);
+                        }
+                        if let Some(pr) = mprot {
+                            range.set_prot(pr);
+                        }
+                        let want_flags = mflags.unwrap_or(libc::MAP_NORESERVE | libc::MAP_SHARED);
+                        let want_prot = mprot.unwrap_or(libc::PROT_READ | libc::PROT_WRITE);
                         emu.clear();
                         let before = maps_snapshot();
                         interpose::arm();
@@ -466,8 +484,11 @@ mod xen_part {
                                 if reg.xen_mmap_flags() != w || reg.xen_mmap_data() != 7 || reg.size() != size || reg.file_offset().map(|f| f.start()) != if with_file { Some(off) } else { None } {
                                     v("xen/region-attributes-differ-from-request", jobj! {"flags" => w, "got_flags" => reg.xen_mmap_flags(), "data" => reg.xen_mmap_data(), "size" => reg.size()});
                                 }
-                                if reg.prot() != libc::PROT_READ | libc::PROT_WRITE {
-                                    v("xen/default-prot", jobj! {"prot" => reg.prot()});
+                                if reg.prot() != want_prot || reg.flags() != want_flags {
+                                    v("xen/prot-or-flags-differ-from-request", jobj! {"prot" => reg.prot(), "want_prot" => want_prot, "flags" => reg.flags(), "want_flags" => want_flags});
+                                }
+                                if reg.flags() & libc::MAP_FIXED != 0 {
+                                    v("xen/region-carries-MAP_FIXED", jobj! {"xen_flags" => w, "flags" => reg.flags()});
                                 }
                                 // on-demand regions must not map anything at construction
                                 if grant && noadv && !maps.is_empty() {
@@ -514,9 +535,10 @@ mod xen_part {
                                 }
                             }
                         }
-                        out::key(&format!("xen|flags{:#x}|file{}|off{}|{}", if w < 32 { w } else { 0xff }, with_file, off.min(2), must_refuse.unwrap_or("safe")), true);
+                        out::key(&format!("xen|flags{:#x}|file{}|off{}|mflags{:?}|{}", if w < 32 { w } else { 0xff }, with_file, off.min(2), mflags, must_refuse.unwrap_or("safe")), true);
                         out::eval(1);
                         n += 1;
+                      }
                     }
                 }
             }
